@@ -117,7 +117,7 @@ def oracle_file(case):
     """Values placed in whole files: ~V, ~W, ~P, custom convert (API/UWI verbatim outside ~P); ~C never converts."""
     out = Outcome()
     s = case["s"]
-    names = case.get("names") or ["VALA", "API", "uwi", "Api", "UWI", "APIN", "UWID", "XAPI", "api2", "Uwi_2", "MUWI"]
+    names = case.get("names") or ["VALA", "API", "uwi", "Api", "UWI", "APIN", "UWID", "XAPI", "api2", "Uwi_2", "MUWI", "A", "PI", "W", "uw", "IU", "I"]
     v12 = case.get("v12", False)
     it = lambda m: lastext.item(m, "", s, "descr")
     vsec = [lastext.item("VERS", "", "1.2" if v12 else "2.0", "v"), lastext.item("WRAP", "", "NO", "w"), it("XV")]
